@@ -9,6 +9,7 @@ CONSTANTS
  Variants <- %(variants)s
  NaiveMaxP = %(naive)d
  NaiveVariants <- %(nv)s
+ AccMaxP = %(accp)d
  NbrMaxP = %(nbrp)d
  NbrVariants <- %(nbrv)s
  Mode = "%(mode)s"
@@ -19,27 +20,24 @@ CHECK_DEADLOCK FALSE
 """
 THEOREMS = "BlockIsDefinition BlockSound Sound Complete Shape Elements Emit"
 def cfg(name, **kw):
-    d = dict(maxp=47, maxq=23, maxk=7, margin=4, variants="A_one", naive=0, nv="None", nbrp=0, nbrv="None", mode="nbr",
+    d = dict(maxp=47, maxq=23, maxk=7, margin=4, variants="A_one", naive=0, nv="None", accp=1000, nbrp=0, nbrv="None", mode="nbr",
              inv=THEOREMS, arith="FALSE", sorted="TRUE")
     d.update(kw)
     open(name + ".cfg", "w").write(base % d)
 
 Q = dict(maxp=47, maxq=23, maxk=7)          # quick box
 T = dict(maxp=90, maxq=45, maxk=10)         # thorough box
-# oracle strings needed for the canonical generators of a box (printed only; repeated until none is missing)
-cfg("MC_Group_needs_q", variants="V_canon", mode="needs", inv="Emit", **Q)
-cfg("MC_Group_needs_t", variants="V_canon", mode="needs", inv="Emit", **T)
 # member sets for the element checks: every p >= 1, every q of the box (also groups that are not well-formed)
 cfg("MC_Group_q_elem", variants="E_one", mode="elem", inv="Emit", **Q)
 cfg("MC_Group_t_elem", variants="E_one", mode="elem", inv="Emit", **T)
 # per group of variants: accepting set of every block of the box (printed), block = definition for the small blocks,
 # state machine  well-formed set -> single-field corruption  with all theorems in every state, neighbourhoods printed
 cfg("MC_Group_q_one", variants="A_one", nv="D_one", naive=13, nbrv="N_one", nbrp=47, arith="TRUE", **Q)
-cfg("MC_Group_q_com1", variants="A_com1", nv="D_com1", naive=7, nbrv="N_com1", nbrp=31, **Q)
-cfg("MC_Group_q_two", variants="A_two", nv="D_two", naive=11, nbrv="N_two", nbrp=31, **Q)
-cfg("MC_Group_q_com2", variants="A_com", nbrv="N_com", nbrp=23, **Q)
+cfg("MC_Group_q_com1", variants="A_com1q", nv="D_com1", naive=7, nbrv="A_com1q", nbrp=31, maxp=31, maxq=15, maxk=7)
+cfg("MC_Group_q_two", variants="A_twoq", nv="D_two", naive=11, nbrv="A_twoq", nbrp=31, **Q)
+cfg("MC_Group_q_com2", variants="A_comq", nbrv="N_comq", nbrp=23, accp=13, maxp=23, maxq=11, maxk=3)
 cfg("MC_Group_t_one", variants="A_one", nv="D_one", naive=29, nbrv="N_one", nbrp=90, arith="TRUE", **T)
-cfg("MC_Group_t_com1", variants="A_com1", nv="D_com1", naive=13, nbrv="N_com1", nbrp=47, sorted="FALSE", **T)
-cfg("MC_Group_t_two", variants="A_two", nv="D_two", naive=17, nbrv="N_two", nbrp=47, sorted="FALSE", **T)
-cfg("MC_Group_t_com2", variants="A_com", nv="D_com", naive=11, nbrv="N_comT", nbrp=47, **T)
-cfg("MC_Group_t_com3", variants="A_com3", nbrv="A_com3", nbrp=23, maxp=47, maxq=23, maxk=7)
+cfg("MC_Group_t_com1", variants="A_com1", nv="D_com1", naive=13, nbrv="A_com1q", nbrp=47, accp=47, **T)
+cfg("MC_Group_t_two", variants="A_two", nv="D_two", naive=17, nbrv="A_twoq", nbrp=47, accp=60, **T)
+cfg("MC_Group_t_com2", variants="A_com", nv="D_com", naive=11, nbrv="N_com", nbrp=31, accp=19, **Q)
+cfg("MC_Group_t_com3", variants="A_com3", nbrv="A_com3", nbrp=23, accp=11, maxp=23, maxq=11, maxk=3)
